@@ -132,6 +132,16 @@ func (e *Exec) libModel(st *State, callee *ssa.Function, cc *ssa.CallCommon, arg
 		e.store(st, args[0], e.freshVal(st, "consumed", bufs.T))
 		set(Val{T: resT, Tup: []Val{{T: types.Typ[types.Int64], S: n}, errv}})
 		return true, true, nil
+	case "context.WithCancel", "context.WithTimeout", "context.WithDeadline", "context.Background", "context.TODO", "context.WithValue":
+		used()
+		r := e.freshVal(st, "ctx", resT)
+		if r.Tup != nil {
+			e.assume(st, fmt.Sprintf("(> (i-tag %s) 0)", r.Tup[0].S))
+		} else {
+			e.assume(st, fmt.Sprintf("(> (i-tag %s) 0)", r.S))
+		}
+		set(r)
+		return true, true, nil
 	case "bytes.NewBuffer":
 		// model: a Buffer is a heap object whose field buf holds the unread bytes (off == 0)
 		used()
